@@ -38,8 +38,8 @@ PROPS = {
         assumptions=["arrays are sets; repeated variables take scalar values (C02's quantifier)"],
         runs=[dict(component="match", require="Corr.MatchCorr", require_vo="Corr/MatchCorr.vo",
                    n=dict(quick=2400, thorough=120000), shard=700, opts=dict(mode="c02"),
-                   evals=dict(M="mc_mismatches", V="c02_violations", NT="c02_nontrivial", NL="c02_linear_count"),
-                   counts=("NT", "NL")),
+                   evals=dict(M="mc_mismatches", V="c02_violations", NT="c02_nontrivial", NL="c02_linear_count", NO="c02_opt_count"),
+                   counts=("NT", "NL", "NO")),
               # the small scope the property names: every pattern of <= 3 nodes x every message of <= 4 nodes over the
               # alphabet {a, b}, variables {?x, ?y}: exhaustive in the thorough tier (95,040 pairs), every 32nd pair in quick;
               # oracle: every assignment of message parts to the variables that embeds the pattern is returned
